@@ -910,6 +910,13 @@ impl Session {
     for (k, v) in extra {
       coverage.insert(k, v);
     }
+    // the coverage-guided stage (run by ./check before this process) reports
+    // through the environment
+    if let Ok(text) = std::env::var("ORDVERIF_FUZZ_STATS") {
+      if let Ok(value) = serde_json::from_str::<Value>(&text) {
+        coverage.insert("coverage_guided_stage".into(), value);
+      }
+    }
     if !inconclusive.is_empty() {
       coverage.insert("inconclusive".into(), json!(inconclusive));
     }
